@@ -3,6 +3,14 @@
 #define HFSM2_ENABLE_SERIALIZATION
 #define HFSM2_ENABLE_TRANSITION_HISTORY
 #define HFSM2_ENABLE_UTILITY_THEORY
+#ifdef VM_LOGGER
+#if VM_LOGGER == 2
+#define HFSM2_ENABLE_LOG_INTERFACE
+#else
+#define HFSM2_ENABLE_VERBOSE_DEBUG_LOG
+#endif
+#define HFSM2_ENABLE_STRUCTURE_REPORT
+#endif
 #include "common/verif.hpp"
 using namespace hfsm2; using namespace hfsm2::detail;
 static unsigned g_rng_draws_; static float g_rng_last_;
@@ -59,30 +67,33 @@ static const VSpec VM_SPEC[VM_NS] = {
 struct A : St<1> {}; struct U : St<2> {}; struct R : St<3> {}; struct R1 : St<4> {}; struct R2 : St<5> {}; struct R3 : St<6> {}; struct U1 : St<7> {};
 #define VM_FOR_STATES(F_) F_(A, 1) F_(U, 2) F_(R, 3) F_(R1, 4) F_(R2, 5) F_(R3, 6) F_(U1, 7)
 #elif defined(VM_ORTHO_IN_UTIL)
-// utilitarian region whose FIRST option is an orthogonal region with a plain COMPOSITE sub-region first and a utilitarian one last:
-// utilize(U) must resolve every region it enters by utility, also the non-last sub-regions of an orthogonal option
-using FSM = M::PeerRoot< S(A), M::Utilitarian<S(U), M::Orthogonal<S(O), M::Composite<S(P), S(P1), S(P2)>, M::Utilitarian<S(W), S(W1), S(W2)>>, S(U1)> >;
-#define VM_NS 11
-#define VM_NC 4
+// utilitarian region whose FIRST option is an orthogonal region with a plain COMPOSITE sub-region first, a utilitarian one in the middle
+// and another plain composite one last: utilize(U) must resolve every region it enters by utility - first, middle and last sub-region alike
+using FSM = M::PeerRoot< S(A), M::Utilitarian<S(U), M::Orthogonal<S(O), M::Composite<S(P), S(P1), S(P2)>, M::Utilitarian<S(W), S(W1), S(W2)>, M::Composite<S(Q), S(Q1), S(Q2)>>, S(U1)> >;
+#define VM_NS 14
+#define VM_NC 5
 #include "tier_c/spec_types.hpp"
 static const VSpec VM_SPEC[VM_NS] = {
   /*0  root*/ { -1, 0, K_COMPO, 2, ST_COMPOSITE,   0 },
   /*1  A   */ {  0, 0, K_LEAF,  0, ST_NONE,       -1 },
   /*2  U   */ {  0, 1, K_COMPO, 2, ST_UTILITARIAN, 1 },
-  /*3  O   */ {  2, 0, K_ORTHO, 2, ST_NONE,        0 },
+  /*3  O   */ {  2, 0, K_ORTHO, 3, ST_NONE,        0 },
   /*4  P   */ {  3, 0, K_COMPO, 2, ST_COMPOSITE,   2 },
   /*5  P1  */ {  4, 0, K_LEAF,  0, ST_NONE,       -1 },
   /*6  P2  */ {  4, 1, K_LEAF,  0, ST_NONE,       -1 },
   /*7  W   */ {  3, 1, K_COMPO, 2, ST_UTILITARIAN, 3 },
   /*8  W1  */ {  7, 0, K_LEAF,  0, ST_NONE,       -1 },
   /*9  W2  */ {  7, 1, K_LEAF,  0, ST_NONE,       -1 },
-  /*10 U1  */ {  2, 1, K_LEAF,  0, ST_NONE,       -1 },
+  /*10 Q   */ {  3, 2, K_COMPO, 2, ST_COMPOSITE,   4 },
+  /*11 Q1  */ { 10, 0, K_LEAF,  0, ST_NONE,       -1 },
+  /*12 Q2  */ { 10, 1, K_LEAF,  0, ST_NONE,       -1 },
+  /*13 U1  */ {  2, 1, K_LEAF,  0, ST_NONE,       -1 },
 };
-#define VM_NCFG 6
+#define VM_NCFG 10
 #include "tier_c/machine_common.hpp"
 struct A : St<1> {}; struct U : St<2> {}; struct O : St<3> {}; struct P : St<4> {}; struct P1 : St<5> {}; struct P2 : St<6> {};
-struct W : St<7> {}; struct W1 : St<8> {}; struct W2 : St<9> {}; struct U1 : St<10> {};
-#define VM_FOR_STATES(F_) F_(A, 1) F_(U, 2) F_(O, 3) F_(P, 4) F_(P1, 5) F_(P2, 6) F_(W, 7) F_(W1, 8) F_(W2, 9) F_(U1, 10)
+struct W : St<7> {}; struct W1 : St<8> {}; struct W2 : St<9> {}; struct Q : St<10> {}; struct Q1 : St<11> {}; struct Q2 : St<12> {}; struct U1 : St<13> {};
+#define VM_FOR_STATES(F_) F_(A, 1) F_(U, 2) F_(O, 3) F_(P, 4) F_(P1, 5) F_(P2, 6) F_(W, 7) F_(W1, 8) F_(W2, 9) F_(Q, 10) F_(Q1, 11) F_(Q2, 12) F_(U1, 13)
 #elif defined(VM_NESTED_UTIL)
 // utilitarian region whose FIRST prong is a nested utilitarian region, a leaf, and an orthogonal prong containing another utilitarian region
 // (utility of a nested region = head x chosen sub; orthogonal = head x mean)
